@@ -96,6 +96,7 @@ pub fn snapshot_table(lcs_r: &adlt::lifecycle::LcsRType) -> Vec<LcInfo> {
                 is_resume: lc.is_resume(),
                 resumes: lc.verif_resumed_lc_id(),
                 merged: lc.was_merged().is_some(),
+                only_control_requests: lc.only_control_requests(),
             });
         }
     }
